@@ -45,7 +45,9 @@ man = {
     "notes": "Exit 0 held / 1 VIOLATION line / 2 the check itself is broken (never a statement about /repo). known_findings.json lists recorded genuine defects (KNOWN-FINDING lines) and fixed ones.",
 }
 if (V / "manifest.d" / "_source_commits.json").exists():
-    man["hooks"]["source_commits"] = json.loads((V / "manifest.d" / "_source_commits.json").read_text())
+    # no hook/instrumentation commit exists; the unguarded `fix:` commits made to /repo are listed in the notes
+    fixes = json.loads((V / "manifest.d" / "_source_commits.json").read_text())
+    man["notes"] += " Repairs of genuine defects committed to /repo (each a separate unguarded `fix:` commit; also listed as `fixed:` in known_findings.json): " + "; ".join(fixes) + "."
 (V / "MANIFEST.json").write_text(json.dumps(man, indent=1) + "\n")
 # findings
 open_, fixed = [], []
